@@ -16,6 +16,9 @@
 #include "path.h"
 #include "strops.h"
 #include "ftype.h"
+#ifdef ALDOR_VERIF
+#include "verifhook.h"
+#endif
 
 /****************************************************************************
  *
@@ -824,6 +827,9 @@ comsgVRemark(AbSyn ab, Msg msg, va_list argp)
 
 	if (comsgOkRemark(msg)) {
 		nRemarks++;
+#ifdef ALDOR_VERIF
+	VERIF_EVENT(("{\"ev\":\"Msg\",\"kind\":\"remark\",\"nerr\":%d}", nErrors));
+#endif
 		comsg = comsgVDo(COMSG_REMARK, ab, msg, argp);
 	}
 	return comsg;
@@ -836,6 +842,9 @@ comsgVWarning(AbSyn ab, Msg msg, va_list argp)
 
 	if (comsgOkWarning(msg)) {
 		nWarnings++;
+#ifdef ALDOR_VERIF
+	VERIF_EVENT(("{\"ev\":\"Msg\",\"kind\":\"warning\",\"nerr\":%d}", nErrors));
+#endif
 		comsg = comsgVDo(COMSG_WARNING, ab, msg, argp);
 	}
 	return comsg;
@@ -849,6 +858,9 @@ comsgVWarnPos(SrcPos pos, Msg msg, va_list argp)
 	ab = abNewNothing(pos);
 	if (comsgOkWarning(msg)) {
 		nWarnings++;
+#ifdef ALDOR_VERIF
+	VERIF_EVENT(("{\"ev\":\"Msg\",\"kind\":\"warning\",\"nerr\":%d}", nErrors));
+#endif
 		comsg = comsgVDo(COMSG_WARNING, ab, msg, argp);
 	}
 	return comsg;
@@ -860,6 +872,9 @@ comsgVError(AbSyn ab, Msg msg, va_list argp)
 	CoMsg comsg;
 
 	nErrors++;
+#ifdef ALDOR_VERIF
+	VERIF_EVENT(("{\"ev\":\"Msg\",\"kind\":\"error\",\"nerr\":%d}", nErrors));
+#endif
 	comsg = comsgVDo(COMSG_ERROR, ab, msg, argp);
 	
 	if (nErrors == comsgErrorMax)
@@ -872,6 +887,9 @@ void
 comsgVFatal(AbSyn ab, Msg msg, va_list argp)
 {
 	nErrors++;
+#ifdef ALDOR_VERIF
+	VERIF_EVENT(("{\"ev\":\"Msg\",\"kind\":\"fatal\",\"nerr\":%d}", nErrors));
+#endif
 	comsgVDo(COMSG_FATAL, ab, msg, argp);
 	comsgFini();
 	exitFailure();
